@@ -5146,4 +5146,118 @@ theorem update_multi (hf : HashFns) (t t' : Tree) (L : List Bytes) (hst : Stored
             rw [hp']
 
 
+/-! ### the right witness beyond 64 layers -/
+
+/-- `GenerateRightWitness` on a tree with an exact store -/
+theorem genWitness_eq (hf : HashFns) (t : Tree) (L : List Bytes) (hst : Stored hf t L)
+    (hsize : t.core.size = L.length) (i : Nat) (hi0 : 0 < i) (hi : i ≤ L.length) :
+    genWitness t i = some (witSpec hf L (getHeight L.length) 0 i) := by
+  unfold genWitness
+  rw [hsize, if_neg (by omega), if_neg (by omega), if_neg (by omega),
+    witnessLoop_spec hf t L hst i hi0 _ 0 i [] (by simp) (by simp) (Nat.le_refl _)]
+  simp
+
+/-- when the fuel runs out before the witness is used up, no root is returned -/
+theorem rwLoop_tail_none (hf : HashFns) (i : Nat) (init : Bool) : ∀ (f : Nat) (rw : List Bytes) (layer : Nat) (cur : Bytes),
+    f < rw.length → layer + f = 64 → rwLoop hf i f layer (2 ^ layer) init [] rw cur = none := by
+  intro f
+  induction f with
+  | zero =>
+    intro rw layer cur h _
+    cases rw with
+    | nil => simp at h
+    | cons w rw' => simp [rwLoop]
+  | succ f ih =>
+    intro rw layer cur h hl
+    cases rw with
+    | nil => simp at h
+    | cons w rw' =>
+      simp only [List.length_cons] at h
+      by_cases hf0 : f = 0
+      · subst hf0
+        rw [rwLoop_right' hf i 0 layer (2 ^ layer) _ init w [] rw' cur (Or.inl rfl) (pow_div_self_mod layer) rfl]
+        cases rw' with
+        | nil => simp at h
+        | cons w2 rw2 => simp [rwLoop]
+      · have hlt : 2 ^ (layer + 1) < 2 ^ 64 := Nat.pow_lt_pow_right (by decide) (by omega)
+        rw [rwLoop_right' hf i f layer (2 ^ layer) (2 ^ (layer + 1)) init w [] rw' cur (Or.inl rfl)
+          (pow_div_self_mod layer)
+          (by rw [show 2 ^ layer + 2 ^ layer = 2 ^ (layer + 1) by rw [Nat.pow_succ]; omega]; exact Nat.mod_eq_of_lt hlt)]
+        exact ih rw' (layer + 1) _ (by omega) (by omega)
+
+theorem witSpec_pow_length (hf : HashFns) (L : List Bytes) (hL : L.length = 2 ^ 64 + 1) :
+    ∀ (F j : Nat), j ≤ 64 → 65 - j ≤ F → (witSpec hf L F j (2 ^ j)).length = 65 - j := by
+  intro F
+  induction F with
+  | zero => intro j h1 h2; omega
+  | succ F ih =>
+    intro j h1 h2
+    have hp : 2 ^ j ≤ 2 ^ 64 := Nat.pow_le_pow_right (by decide) h1
+    simp only [witSpec]
+    rw [if_neg (by omega), if_neg (by rw [pow_div_self_mod]; omega)]
+    simp only [List.length_cons]
+    rw [show 2 ^ j + 2 ^ j = 2 ^ (j + 1) by rw [Nat.pow_succ]; omega]
+    by_cases hj : j = 64
+    · subst hj
+      rw [witSpec_ge hf L _ _ _ (by rw [hL]; decide)]
+      rfl
+    · rw [ih (j + 1) (by omega) (by omega)]
+      omega
+
+theorem witSpec_succ_odd (hf : HashFns) (L : List Bytes) (F layer inc : Nat) (h1 : ¬ L.length ≤ inc)
+    (h2 : ¬ (inc / 2 ^ layer) % 2 = 0) :
+    witSpec hf L (F + 1) layer inc
+      = rootH hf (blk L layer (inc / 2 ^ layer)) :: witSpec hf L F (layer + 1) (inc + 2 ^ layer) := by
+  simp only [witSpec, if_neg h1, if_neg h2]
+
+theorem witSpec_succ_even (hf : HashFns) (L : List Bytes) (F layer inc : Nat) (h1 : ¬ L.length ≤ inc)
+    (h2 : (inc / 2 ^ layer) % 2 = 0) :
+    witSpec hf L (F + 1) layer inc = witSpec hf L F (layer + 1) inc := by
+  simp only [witSpec, if_neg h1, if_pos h2]
+
+theorem list_length_three {α : Type} (l : List α) (h : l.length = 3) : ∃ a b c, l = [a, b, c] := by
+  match l, h with
+  | [a, b, c], _ => exact ⟨a, b, c, rfl⟩
+
+theorem peaks_three (hf : HashFns) (a b c : Bytes) : peaks hf [a, b, c] = [c, rootH hf [a, b]] := by
+  have h3 : Nat.log2 3 = 1 := log2_eq_of (by decide) (by decide)
+  have h1 : Nat.log2 1 = 0 := log2_eq_of (by decide) (by decide)
+  unfold peaks
+  rw [peaksDesc_cons hf [a, b, c] (by simp)]
+  simp only [List.length_cons, List.length_nil, Nat.zero_add, Nat.reduceAdd, h3, Nat.pow_one]
+  rw [show List.drop 2 [a, b, c] = [c] from rfl, show List.take 2 [a, b, c] = [a, b] from rfl,
+    peaksDesc_cons hf [c] (by simp)]
+  simp only [List.length_cons, List.length_nil, Nat.zero_add, h1, Nat.pow_zero]
+  rw [show List.drop 1 [c] = [] from rfl, show List.take 1 [c] = [c] from rfl, rootH_singleton]
+  simp [peaksDesc]
+
+/-- for `2^64 + 1` leaves the split point 3 is not reconstructed: the 64 layers of
+`CalculateRootFromRightWitness` do not consume the 64 hashes of the right witness -/
+theorem rightWitness_fails (hf : HashFns) (t : Tree) (L : List Bytes) (hst : Stored hf t L)
+    (hsize : t.core.size = L.length) (hL : L.length = 2 ^ 64 + 1) :
+    ∃ w, genWitness t 3 = some w ∧ rootFromRightWitness hf 3 (peaks hf (L.take 3)) w = none := by
+  refine ⟨_, genWitness_eq hf t L hst hsize 3 (by omega) (by rw [hL]; decide), ?_⟩
+  have hH : getHeight L.length = 66 := by
+    rw [hL]
+    unfold getHeight clog2
+    rw [if_neg (by decide), Nat.add_sub_cancel, Nat.log2_two_pow]
+  rw [hH]
+  obtain ⟨a, b, c, habc⟩ := list_length_three (L.take 3) (by simp; rw [hL]; decide)
+  rw [habc, peaks_three]
+  -- the witness: the block at layer 0, nothing at layer 1, then one block per layer
+  have hW : witSpec hf L 66 0 3 = rootH hf (blk L 0 3) :: witSpec hf L 64 2 (2 ^ 2) := by
+    rw [witSpec_succ_odd hf L 65 0 3 (by rw [hL]; decide) (by decide),
+      witSpec_succ_even hf L 64 1 (3 + 2 ^ 0) (by rw [hL]; decide) (by decide)]
+    rfl
+  have hlen := witSpec_pow_length hf L hL 64 2 (by decide) (by decide)
+  rw [hW]
+  simp only [rootFromRightWitness]
+  generalize witSpec hf L 64 2 (2 ^ 2) = W' at hlen
+  rw [show (64 : Nat) = 63 + 1 from rfl,
+    rwLoop_init hf 3 63 0 3 4 _ [] W' _ (by decide) (by decide) (Or.inr (by decide)),
+    show (63 : Nat) = 62 + 1 from rfl,
+    rwLoop_left hf 3 62 1 4 _ [] W' _ (by decide) (Or.inr (by decide))]
+  exact rwLoop_tail_none hf 3 true 62 W' 2 _ (by omega) (by decide)
+
+
 end LiskVerif.RMT
